@@ -20,16 +20,23 @@ Qed.
 Definition ids_wf (s : st) (g : ghost) : Prop :=
   NoDup (g_ids g) /\ forall id, In id (g_ids g) -> id < np s.
 
+Definition done_at (s : st) (id : nat) : bool :=
+  match nth_error (s_proms s) id with Some pr => p_done pr | None => false end.
+
 Record Acct (s s' : st) (g g' : ghost) : Prop := {
   ac_errs : exists de ls, s_errs s' = s_errs s ++ de /\ Forall2 lands de ls /\
                           sub_perm (ls ++ g_sites g') (g_sites g);
-  ac_proms : exists new, s_proms s' = s_proms s ++ new /\ Forall (fun pr => p_done pr = false) new /\
+  ac_proms : exists new, s_proms s' = s_proms s ++ new /\
              forall k pr, nth_error new k = Some pr -> p_id pr = np s + k;
   ac_ids : forall id, In id (g_ids g') -> In id (g_ids g) \/ (np s <= id < np s');
   ac_nodup : ids_wf s g -> NoDup (g_ids g');
-  ac_chans : forall x, In x (s_chans s') -> In x (s_chans s);
+  ac_chans : forall x, In x (s_chans s') ->
+             In x (s_chans s) \/
+             (np s <= fst x /\ option_map p_ok (nth_error (s_proms s') (fst x)) = Some (snd x));
   ac_taken : chans_wf s -> ids_wf s g -> forall x, In x (s_chans s) -> ~ In x (s_chans s') ->
              In (fst x) (g_ids g) /\ ~ In (fst x) (g_ids g');
+  ac_born : chans_wf s -> ids_wf s g -> forall id, In id (g_ids g') -> np s <= id ->
+            done_at s' id = true -> exists ok, In (id, ok) (s_chans s');
   ac_pot : (np s' - np s) + g_pot g' <= g_pot g;
   ac_round : s_round s' = s_round s
 }.
@@ -52,7 +59,8 @@ Qed.
 
 Lemma Acct_chans_wf s s' g g' : Acct s s' g g' -> chans_wf s -> chans_wf s'.
 Proof.
-  intros A W id ok Hin. apply (ac_chans _ _ _ _ A) in Hin. specialize (W id ok Hin).
+  intros A W id ok Hin. apply (ac_chans _ _ _ _ A) in Hin. destruct Hin as [Hin|[_ Hin]]; [|exact Hin].
+  specialize (W id ok Hin).
   destruct (nth_error (s_proms s) id) as [pr|] eqn:E; simpl in W; [|discriminate].
   destruct (Acct_proms_le _ _ _ _ A id pr E) as (pr' & E' & Ok'). rewrite E'. simpl. congruence.
 Qed.
@@ -65,11 +73,12 @@ Lemma Acct_same s s' g : same_acct s s' -> Acct s s' g g.
 Proof.
   intros (E1 & E2 & E3 & E4). constructor.
   - exists [], []. rewrite E1, app_nil_r. repeat split; [constructor | apply sub_perm_refl].
-  - exists []. rewrite E2, app_nil_r. split; auto. split; auto. intros [|k] pr X; discriminate.
+  - exists []. rewrite E2, app_nil_r. split; auto. intros [|k] pr X; discriminate.
   - intros id H. now left.
   - intros [H _]. exact H.
   - rewrite E3. auto.
   - intros _ _ x H1 H2. rewrite E3 in H2. contradiction.
+  - intros _ [_ B] id H L. specialize (B id H). lia.
   - unfold np. rewrite E2. lia.
   - exact E4.
 Qed.
@@ -91,15 +100,20 @@ Proof.
     + now apply Forall2_app.
     + eapply sub_perm_trans; [|exact S1].
       rewrite <- app_assoc. apply sub_perm_app; [apply sub_perm_refl | exact S2].
-  - destruct (ac_proms _ _ _ _ A) as (n1 & E1 & F1 & K1). destruct (ac_proms _ _ _ _ B) as (n2 & E2 & F2 & K2).
-    exists (n1 ++ n2). rewrite E2, E1, app_assoc. split; auto. split; [now apply Forall_app|].
+  - destruct (ac_proms _ _ _ _ A) as (n1 & E1 & K1). destruct (ac_proms _ _ _ _ B) as (n2 & E2 & K2).
+    exists (n1 ++ n2). rewrite E2, E1, app_assoc. split; auto.
     intros k pr X. destruct (lt_dec k (length n1)) as [Hlt|Hge].
     + rewrite nth_error_app1 in X by auto. now apply K1.
     + rewrite nth_error_app2 in X by lia. rewrite (K2 _ _ X). unfold np. rewrite E1, app_length. lia.
   - intros id H. destruct (ac_ids _ _ _ _ B id H) as [H1|H1]; [|right; lia].
     destruct (ac_ids _ _ _ _ A id H1) as [H2|H2]; [now left | right; lia].
   - intros W. eapply ac_nodup; [exact B|]. eapply Acct_ids_wf; eauto.
-  - intros x H. apply (ac_chans _ _ _ _ A). now apply (ac_chans _ _ _ _ B).
+  - intros x H. destruct (ac_chans _ _ _ _ B x H) as [H1|[H1 H2]].
+    + destruct (ac_chans _ _ _ _ A x H1) as [H3|[H3 H4]]; [now left | right]. split; auto.
+      destruct (ac_proms _ _ _ _ B) as (n2 & E2 & _). rewrite E2.
+      destruct (nth_error (s_proms s1) (fst x)) as [pr|] eqn:E; simpl in H4; [|discriminate].
+      rewrite nth_error_app1; [now rewrite E | apply nth_error_Some; congruence].
+    + right. split; auto. lia.
   - intros CW W x H1 H2.
     assert (W1 : ids_wf s1 g1) by (eapply Acct_ids_wf; eauto).
     assert (CW1 : chans_wf s1) by (eapply Acct_chans_wf; eauto).
@@ -110,6 +124,17 @@ Proof.
     + destruct (ac_taken _ _ _ _ A CW W x H1 I1) as [T1 T2]. split; auto.
       intro T3. destruct (ac_ids _ _ _ _ B _ T3) as [T|T]; [contradiction|].
       destruct W as [_ W]. specialize (W _ T1). lia.
+  - intros CW W id Hin Hge Hd.
+    assert (W1 : ids_wf s1 g1) by (eapply Acct_ids_wf; eauto).
+    assert (CW1 : chans_wf s1) by (eapply Acct_chans_wf; eauto).
+    destruct (ac_ids _ _ _ _ B id Hin) as [H1|H1]; [|apply (ac_born _ _ _ _ B CW1 W1 id Hin); [lia | exact Hd]].
+    assert (Hlt : id < np s1) by (apply W1; auto).
+    assert (Hd1 : done_at s1 id = true).
+    { unfold done_at in *. destruct (ac_proms _ _ _ _ B) as (n2 & E2 & _). rewrite E2 in Hd.
+      rewrite nth_error_app1 in Hd by exact Hlt. exact Hd. }
+    destruct (ac_born _ _ _ _ A CW W id H1 Hge Hd1) as [ok Hok]. exists ok.
+    destruct (in_dec chan_eq_dec (id, ok) (s_chans s2)) as [X|X]; auto.
+    destruct (ac_taken _ _ _ _ B CW1 W1 (id, ok) Hok X) as [_ T]. simpl in T. contradiction.
   - pose proof (ac_pot _ _ _ _ A). pose proof (ac_pot _ _ _ _ B). lia.
   - rewrite (ac_round _ _ _ _ B). apply (ac_round _ _ _ _ A).
 Qed.
@@ -160,6 +185,9 @@ Proof.
     destruct (ac_taken _ _ _ _ A CW Wa x H1 H2) as [T1 T2]. split; [apply in_or_app; now left|].
     intro T. apply in_app_or in T. destruct T as [T|T]; [contradiction|].
     destruct W as [N _]. simpl in N. eapply NoDup_app_disj; eauto.
+  - intros CW W id Hin Hge Hd. pose proof (ids_wf_plus_l _ _ _ W) as Wa. pose proof (ids_wf_plus_r _ _ _ W) as Wc.
+    apply in_app_or in Hin. destruct Hin as [Hin|Hin]; [now apply (ac_born _ _ _ _ A CW Wa id Hin)|].
+    destruct Wc as [_ Bc]. specialize (Bc id Hin). lia.
   - pose proof (ac_pot _ _ _ _ A). lia.
   - apply (ac_round _ _ _ _ A).
 Qed.
@@ -184,6 +212,9 @@ Proof.
     destruct (ac_taken _ _ _ _ A CW Wa x H1 H2) as [T1 T2]. split; [apply in_or_app; now right|].
     intro T. apply in_app_or in T. destruct T as [T|T]; [|contradiction].
     destruct W as [N _]. simpl in N. eapply NoDup_app_disj; eauto.
+  - intros CW W id Hin Hge Hd. pose proof (ids_wf_plus_l _ _ _ W) as Wc. pose proof (ids_wf_plus_r _ _ _ W) as Wa.
+    apply in_app_or in Hin. destruct Hin as [Hin|Hin]; [|now apply (ac_born _ _ _ _ A CW Wa id Hin)].
+    destruct Wc as [_ Bc]. specialize (Bc id Hin). lia.
   - pose proof (ac_pot _ _ _ _ A). lia.
   - apply (ac_round _ _ _ _ A).
 Qed.
@@ -205,6 +236,7 @@ Proof.
   - intros _. constructor.
   - apply (ac_chans _ _ _ _ A).
   - intros CW W x H1 H2. destruct (ac_taken _ _ _ _ A CW W x H1 H2). split; auto.
+  - intros _ _ id [].
   - pose proof (ac_pot _ _ _ _ A). lia.
   - apply (ac_round _ _ _ _ A).
 Qed.
@@ -219,11 +251,12 @@ Lemma Acct_fire s e x g : lands e x -> Acct s (add_err e s) (gsite x g) g.
 Proof.
   intros L. constructor; simpl.
   - exists [e], [x]. repeat split; [repeat constructor; auto | apply sub_perm_refl].
-  - exists []. rewrite app_nil_r. split; auto. split; auto. intros [|k] pr X; discriminate.
+  - exists []. rewrite app_nil_r. split; auto. intros [|k] pr X; discriminate.
   - intros id H. now left.
   - intros [H _]. exact H.
   - auto.
   - intros _ _ x0 H1 H2. contradiction.
+  - intros _ [_ B] id H Lt. specialize (B id H). unfold np in *; simpl in *. lia.
   - unfold np; simpl. lia.
   - reflexivity.
 Qed.
@@ -233,11 +266,12 @@ Lemma Acct_unsite s x g : Acct s s (gsite x g) g.
 Proof.
   constructor; simpl.
   - exists [], []. rewrite app_nil_r. repeat split; [constructor|]. apply sub_perm_cons_r, sub_perm_refl.
-  - exists []. rewrite app_nil_r. split; auto. split; auto. intros [|k] pr X; discriminate.
+  - exists []. rewrite app_nil_r. split; auto. intros [|k] pr X; discriminate.
   - intros id H. now left.
   - intros [H _]. exact H.
   - auto.
   - intros _ _ x0 H1 H2. contradiction.
+  - intros _ [_ B] id H Lt. specialize (B id H). lia.
   - lia.
   - reflexivity.
 Qed.
@@ -255,6 +289,7 @@ Proof.
   - intros [N B]. rewrite I in *. apply (ac_nodup _ _ _ _ A). split; auto.
   - apply (ac_chans _ _ _ _ A).
   - intros CW [N B]. rewrite I in *. apply (ac_taken _ _ _ _ A CW). split; auto.
+  - intros CW [N B]. rewrite I in *. apply (ac_born _ _ _ _ A CW). split; auto.
   - pose proof (ac_pot _ _ _ _ A). lia.
   - apply (ac_round _ _ _ _ A).
 Qed.
@@ -276,13 +311,24 @@ Proof. intros I. split; [|split; [|split]]; [apply gle_refl | apply sle_refl | e
 
 (** a pending future is blocked: one of the promises it waits for has nothing in its channel *)
 Definition Blocked (s : st) (g : ghost) : Prop :=
-  exists id, In id (g_ids g) /\ forall ok, ~ In (id, ok) (s_chans s).
+  exists id, In id (g_ids g) /\ id < np s /\ forall ok, ~ In (id, ok) (s_chans s).
+
+(** channels of a later state: what was there, or entries of promises created since *)
+Definition chans_later (s s' : st) : Prop :=
+  np s <= np s' /\ forall x, In x (s_chans s') -> In x (s_chans s) \/ np s <= fst x.
+
+Lemma Acct_chans_later s s' g g' : Acct s s' g g' -> chans_later s s'.
+Proof.
+  intros A. split; [eapply Acct_np; eauto|]. intros x H.
+  destruct (ac_chans _ _ _ _ A x H) as [H1|[H1 _]]; auto.
+Qed.
 
 Lemma Blocked_mono s s' g g1 g2 :
-  (forall x, In x (s_chans s') -> In x (s_chans s)) ->
+  chans_later s s' ->
   Blocked s g -> Blocked s' (gplus g1 (gplus g g2)).
 Proof.
-  intros C (id & Hin & Hno). exists id. split.
+  intros [Np C] (id & Hin & Hlt & Hno). exists id. split; [|split].
   - simpl. apply in_or_app. right. apply in_or_app. now left.
-  - intros ok H. apply (Hno ok). now apply C.
+  - lia.
+  - intros ok H. destruct (C _ H) as [H1|H1]; [exact (Hno ok H1) | simpl in H1; lia].
 Qed.
